@@ -141,7 +141,9 @@ func specEntropy(t TxSpec) int64 {
 	return h%1000000007 + 1
 }
 
-func buildTxBytes(t TxSpec, height int64) ([]byte, error) {
+func buildTxBytes(t TxSpec, height int64) ([]byte, error) { return buildTxBytesOpt(t, height, true) }
+
+func buildTxBytesOpt(t TxSpec, height int64, canonical bool) ([]byte, error) {
 	msg, err := buildMsg(t)
 	if err != nil {
 		return nil, err
@@ -252,7 +254,7 @@ func buildTxBytes(t TxSpec, height int64) ([]byte, error) {
 	// MsgStake carries a Go map that the generated encoder walks in map order: the bytes (and the tx hash)
 	// of the same signed content vary from run to run. The harness needs one canonical choice: the
 	// lexicographically smallest of many encodings (2-3 entries: every order appears with overwhelming probability).
-	if ms, ok := msg.(*nodesTypes.MsgStake); ok && len(ms.RewardDelegators) > 1 {
+	if ms, ok := msg.(*nodesTypes.MsgStake); ok && canonical && len(ms.RewardDelegators) > 1 {
 		for i := 0; i < 400; i++ {
 			b2, _ := auth.DefaultTxEncoder(chainCodec())(tx, height)
 			if string(b2) < string(bz) {
